@@ -99,6 +99,36 @@ def run(ctx):
                         en[1] + _size_offset(list(en[0])[0]) == -2
                     ctx.check(okk, "R1", "host-range:%s:inclusive:1..=size-2" % tag, ctx.where(b, tm["sp"]), "start %s end %s" % (st, en))
     ctx.floor("R1", "host ranges derived from a prefix length", n, 2)
+    # the offsets of a host range are added to the *network* address of the subnet (the address as written may have host bits)
+    n2 = 0
+    hosts = set()
+    for b, bb, idx, s in list(find_aggs(P, "std::ops::Range")):
+        T = terms(P, b)
+        t = norm(T.rvalue(s["rv"], bb, idx))
+        f = dict(t[3])
+        if "end" in f and any(_is_shl_size(x) for x in subterms(f["end"])):
+            root = b.id
+            while P.bodies[root].parent:
+                root = P.bodies[root].parent
+            hosts.add(root)
+    for root in sorted(hosts):
+        for b in P.family(root):
+            T = terms(P, b)
+            for bb, idx, st in b.stmts():
+                rv = st.get("rv")
+                if not (rv and rv["k"] == "bin" and rv["op"] in ("Add", "AddWithOverflow") and rv.get("ty") == "u32"):
+                    continue
+                ops = [norm(T.operand(rv[k], bb, idx)) for k in ("a", "b")]
+                lifted = ops + [lift(P, b, x)[1] for x in ops]
+                if not any(any(y[0] == "call" and "Ipv4" in str(y[1]) or (y[0] == "call" and str(y[1]).rsplit("::", 1)[-1] in ("network", "addr")) or (y[0] == "field" and y[2] in ("addr",)) for y in subterms(x)) for x in lifted):
+                    continue     # not address arithmetic
+                n2 += 1
+                good = any(any(y[0] == "call" and str(y[1]).rsplit("::", 1)[-1] == "network" for y in subterms(x)) for x in lifted)
+                tag = b.id.split("::")[-1] if not b.id.endswith("}") else [p_ for p_ in b.id.split("::") if not p_.startswith("{")][-1]
+                ctx.check(good, "R1", "host-offset-added-to-the-network-address:%s" % tag, ctx.where(b, st["sp"]),
+                          "a pool built from a prefix is network + offset; the base here is %s — with a prefix written with host bits "
+                          "(192.0.2.53/24) the pool is shifted and reaches past the subnet" % [show(x)[:60] for x in lifted[2:]])
+    ctx.floor("R1", "address arithmetic in the host-range expansions", n2, 2)
 
     # ---------------- R4: apply-range is inclusive of both parsed bounds
     n = 0
@@ -117,6 +147,8 @@ def run(ctx):
                           "apply-range must expand to u32(start)..=u32(end) (is %s ..= %s)" % (show(a[0])[:60], show(a[1])[:60]))
     ctx.floor("R4", "inclusive address ranges in the policy parser", n, 1)
 
+    # ---------------- R7: every address source of a policy adds to the same list
+    _r7(ctx)
     # ---------------- R2: the receiving address is removed before the pool is asked
     _r2(ctx, M, cg)
     # ---------------- R3: descendant subtraction
@@ -125,6 +157,40 @@ def run(ctx):
     _r5(ctx)
     # ---------------- R6: membership before grant
     _r6(ctx, M)
+
+
+def _r7(ctx):
+    """apply-address, apply-range and apply-subnet of one policy all contribute to one address list: inside the key loop the list is
+    only ever obtained with get_or_insert_with (and extended); it is never replaced, re-inserted or taken"""
+    P = ctx.P
+    n = 0
+    for b in P.bodies.values():
+        if not b.id.endswith("dhcp::config::Config::parse_policy"):
+            continue
+        ctx.saw(b)
+        T = terms(P, b)
+        cfg = cfg_of(b)
+        loops = [cfg.natural_loop(e) for e in cfg.back_edges()]
+        cand = [i for i, l in enumerate(b.locals) if l["ty"].replace(" ", "") == "std::option::Option<std::vec::Vec<std::net::Ipv4Addr>>" and b.local_name(i)]
+        for L in cand:
+            for bb, tm in b.calls():
+                if not any(bb in l for l in loops):
+                    continue
+                recv = borrowed_place(T, tm["args"][0], bb, len(b.blocks[bb]["stmts"])) if tm["args"] else None
+                if recv is None or recv[0] != L or len(recv) != 1:
+                    continue
+                last = (callee_name(tm) or "").rsplit("::", 1)[-1]
+                n += 1
+                ok_ = last in ("get_or_insert_with", "get_or_insert", "get_or_insert_default", "as_mut", "as_ref", "is_some", "is_none", "as_deref_mut", "iter")
+                ctx.check(ok_, "R7", "policy-address-sources-accumulate:%s:%s" % (b.local_name(L), last), ctx.where(b, tm["sp"]),
+                          "Option::%s on the policy's address list inside the key loop discards what an earlier apply-address / apply-range / "
+                          "apply-subnet of the same policy contributed" % last)
+            for bb, idx, st in b.stmts():
+                if st["p"] == (L,) and any(bb in l for l in loops) and "rv" in st and st["rv"]["k"] == "agg":
+                    n += 1
+                    ctx.bad("R7", "policy-address-sources-accumulate:%s:reassigned" % b.local_name(L), ctx.where(b, st["sp"]),
+                            "the policy's address list is reassigned inside the key loop")
+    ctx.floor("R7", "uses of the policy's address list in the key loop", n, 3)
 
 
 def _r2(ctx, M, cg):
